@@ -499,8 +499,11 @@ class _TotalJacInfo(object):
             self.J_final = self.J_dict = self._get_dict_J(J, wrt_metadata, of_metadata,
                                                           return_format)
         
-        # Store which VOIs require unit scaling if we're computing an optimization jacobian.
-        if not has_custom_derivs:
+        # Store which VOIs require unit scaling if we're computing an optimization jacobian, or
+        # if driver scaling was requested for a user-selected of/wrt: the autoscaler scales the
+        # blocks of the driver's variables by name, and that scaling is defined on values that
+        # have been converted to the declared units first.
+        if not has_custom_derivs or self.has_scaling:
             self._identify_unit_active_vars()
 
         # Apply explicit unit conversions requested by the functional API.
